@@ -186,14 +186,14 @@ def run(ctx):
     # byte-level wire layout (vlib.layout.byte_layout): independent of push / extend_from_slice / array-literal spelling
     head = [x for x in it if x['must']]
     tail = [x for x in it if not x['must']]
-    hb = [b for b, _ in byte_layout(ms, head)]
+    hb = [x[0] for x in byte_layout(ms, head)]
     want = [('field', 'type_', 1), ('field', 'type_', 0), ('field', 'length', 1), ('field', 'length', 0), ('field', 'reserved', 0), ('field', 'protocol_family', 0),
             ('field', 'port', 1), ('field', 'port', 0)]
     # the address may be one unconditional append of a merged value, or one append per variant
     addr_items = list(tail)
     if len(hb) > 8 and not tail:
         addr_items = [head[-1]]
-        hb = [b for b, _ in byte_layout(ms, head[:-1])]
+        hb = [x[0] for x in byte_layout(ms, head[:-1])]
     fields, problems = field_groups(ms, addr_items, lambda x: 'addr')
     order_ok = all(a['block'] in ms.reachable(h['block']) for a in addr_items for h in (head if tail else head[:-1]))
     rep.check(r2, hb == want and len(fields) == 1 and not problems and order_ok, 'mapped:wire-order',
